@@ -35,6 +35,10 @@ def enum_of_type(ty):
     return t if i < 0 else t[:i]
 
 
+# single-field private structs introduced by an edit (not part of the pinned tree): transparent for Expr.strip
+NEWTYPES = set()
+
+
 class Facts:
     def __init__(self, path):
         with open(path) as f:
@@ -94,6 +98,13 @@ class Facts:
                 known = set(pin["adts"]) | set(pin.get("enums", []))
                 news = {a_["path"]: a_["variants"][0]["fields"] for a_ in self.raw["adts"] if a_["kind"] == "Struct" and a_["variants"] and a_["path"] not in known and not a_["path"].startswith(("std::", "core::", "alloc::"))}
                 self.sroa = sroa.split(self.raw, {caller for caller, callee in self.inlined}, news) if news else 0
+        if self.crate == "grenad" and self.version != "0.4.7":
+            from . import normalize as _nz2
+            _pin = _nz2.pinned()
+            _known = set(_pin["adts"]) | set(_pin.get("enums", []))
+            for a_ in self.raw["adts"]:
+                if a_["kind"] == "Struct" and a_["variants"] and len(a_["variants"][0]["fields"]) == 1 and a_["path"] not in _known and not a_["path"].startswith(("std::", "core::", "alloc::")) and not a_.get("pub"):
+                    NEWTYPES.add(a_["path"])
         self.bodies = [Body(b, self) for b in self.raw["bodies"]]
         self.by_path = defaultdict(list)
         for b in self.bodies:
@@ -342,6 +353,8 @@ class Expr:
                 e = e.a[0].a[0]  # `match r { Ok(x) => x, Err(e) => return Err(e) }` -> r (the Ok payload of r)
             elif e.k == "phi" and not keep_phi and len({c.show() for c in e.a}) == 1:
                 e = e.a[0]
+            elif e.k == "agg" and e.x.get("ak") == "adt" and len(e.a) == 1 and e.x.get("adt") in NEWTYPES:
+                e = e.a[0]      # a private wrapper struct around one value that the pinned tree does not have
             elif e.k == "call" and len(e.a) == 2 and e.x["path"].endswith(("::index", "::index_mut")) and e.a[1].strip().k == "agg" and (e.a[1].strip().x.get("adt") or "").endswith("ops::RangeFull"):
                 e = e.a[0]      # v[..] is the whole of v
             elif e.k == "field" and isinstance(e.x.get("idx"), int) and e.a[0].strip().k == "agg" and e.a[0].strip().x.get("ak") == "tuple" and e.x["idx"] < len(e.a[0].strip().a):
